@@ -74,6 +74,10 @@ CHECKS = {
                 technique="runtime monitoring of real TLS handshakes over loopback against fixture certificates (resolver hook H2 maps the names), exhaustive flag/certificate/path/placement matrix decided by a truth table, under both TLS backends (two harness flavours)",
                 text="Every cell of {CA-anchored, self-signed, unknown issuer, expired} x {name matches, differs} x accept_invalid_certs x accept_invalid_hostnames x root added x {direct, CONNECT through a real loopback proxy, https proxy with nested TLS} x {flags set on session, request, clone} is executed together with a sibling / original request that must stay unaffected; success is allowed only where the truth table allows it (safety), and required for the CA->leaf topology on DNS names or when certificate checks are waived (liveness); a rejected peer must never have received the request. Both native-tls and rustls flavours run in quick and thorough.",
                 note="Trusts OpenSSL/rustls to perform the checks they are asked to perform and the fixtures (verified with openssl verify at generation). tls-rustls-native-roots and Windows paths are not run."),
+    "C13": dict(cat="fault_enumeration", design="DESIGN.md §3 C13",
+                technique="runtime monitoring with fault injection on real loopback sockets: peers stall or drip at every protocol phase; elapsed-time classes, end-of-body signals and /proc thread/fd counts are the observations; hook H3 forces reader/watchdog interleavings; load probe + retry keep wall-clock verdicts honest",
+                text="Every stall phase (upload, status line, headers, blank line, length/close/chunked body positions, TLS handshake, CONNECT reply, inside the tunnel) x {silent, drip} x four timeout configurations, redirect chains exceeding T in total, converse histories (complete responses with up to five reads after end-of-body) and 24 forced reader/watchdog schedules are executed; the call must end with Err within T (or R) + 1.5 s, never report a cut body as complete, never report a completed response as timed out before the deadline, and leave no thread or descriptor behind.",
+                note="Timing classes are separated by more than an order of magnitude (bound T+1.5 s vs a 20 s hold); a suspect timing on a loaded machine is retried and then reported inconclusive. Connect phase, Windows branches not covered."),
 }
 
 NOT_APPLICABLE = {}
